@@ -84,7 +84,7 @@ theorem C18_no_foreign_unlock : foreignUnlocks.isEmpty = true := by decide +kern
 
 theorem C18_lockset_statement_false : ¬ C18_lockset_statement := by
   intro h
-  have hw : ∃ r ∈ rowsOf N.«lru.Cache.ll», ∃ s ∈ rowsOf N.«lru.Cache.ll», pairOk tables r s = false := by
+  have hw : ∃ r ∈ rowsOf N.«headerfs.headerFile.file», ∃ s ∈ rowsOf N.«headerfs.headerFile.file», pairOk tables r s = false := by
     decide +kernel
   obtain ⟨r, hr, s, hs, hrs⟩ := hw
   have := h r (List.mem_filter.mp hr).1 s (List.mem_filter.mp hs).1
